@@ -1418,14 +1418,16 @@ def check_file_vs_model(pid, model, filesnap):
     for g in filesnap['geometries']:
         for u in g['unaccounted']:
             fail('unaccounted', 'mesh/' + u, 'mesh of %s holds <%s> which the model does not account for' % (g['id'], u))
-        for s in g['sources']:
+        for s in (g['sources'] if pid == 'C06' else []):
+            # an independent reader takes the values through the accessor: its bookkeeping is part
+            # of what "recovers every source's values" means (C06 only; C04 owns self-consistency)
             if 'data' in s and not (s['count'] == len(s['data']) and s['array_ok']):
                 fail('attribute', 'geometries.sources.count', 'float_array count/accessor source of %s disagree with the data' % s['id'])
             if 'data' in s and s['components'] and not (s['stride'] == len(s['components'])
                                                         and s['acount'] * s['stride'] == len(s['data'])):
                 fail('attribute', 'geometries.sources.accessor', 'accessor count/stride of %s disagree with the data' % s['id'])
         for p in g['primitives']:
-            for src in p.get('direct_vertex', []):
+            for src in (p.get('direct_vertex', []) if pid == 'C06' else []):
                 fail('reference', 'geometries.primitives.vertices-indirection',
                      'a VERTEX input of %s names %r directly instead of a <vertices> element' % (g['id'], src))
             for inp in p['inputs']:
